@@ -86,7 +86,7 @@ fn run<T: Fl>(c: &Case, lx: &mut Local) {
     let exact: Vec<Rat> = (0..=8u32).map(|p| fl::central_moment(&xr, p)).collect();
     let bounds: Vec<f64> = (0..=8u32).map(|p| if p < 2 { 0.0 } else { moment_bound::<T>(&xr, p) }).collect();
     for &st in &[1isize, 2, -1] {
-        if n >= 5 && (st as usize + salt) % 3 != 0 && st != 1 {
+        if n >= 5 && (st as usize).wrapping_add(salt) % 3 != 0 && st != 1 {
             continue;
         }
         lx.single(|lx| {
@@ -290,6 +290,141 @@ fn run_nd<T: Fl>(c: &NCase, lx: &mut Local) {
     });
 }
 
+#[derive(Debug, Clone)]
+struct SCase {
+    n: usize,
+    fill: u8,
+    ty: u8,
+}
+
+/// long arrays (size thresholds) and extreme scales
+fn run_sweep<T: Fl>(c: &SCase, lx: &mut Local) {
+    let n = c.n;
+    let u = T::U;
+    // fills 0..2: ordinary scale; fills 3, 4: tiny / huge scale (skewness and kurtosis must still be representable)
+    let scale = match c.fill {
+        3 => {
+            if T::NAME == "f32" {
+                1e-8
+            } else {
+                1e-60
+            }
+        }
+        4 => {
+            if T::NAME == "f32" {
+                1e7
+            } else {
+                1e60
+            }
+        }
+        _ => 1.0,
+    };
+    let xs: Vec<T> = (0..n)
+        .map(|i| {
+            T::of(scale
+                * match c.fill {
+                    0 => ((i * 7919) % 1009) as f64 * 0.37 - 100.0,
+                    1 => 1e3 + (i % 17) as f64 * 0.1 + if i == 0 { 50.0 } else { 0.0 },
+                    _ => ((i * i + 3 * i) % 11) as f64 - 4.0 + if i % 7 == 0 { 0.5 } else { 0.0 },
+                })
+        })
+        .collect();
+    let ws: Vec<T> = (0..n).map(|i| T::of(if i == 0 || i % 9 == 4 { 0.0 } else { 0.25 + ((i * 3) % 5) as f64 })).collect();
+    let (xr, wr) = (rats(&xs), rats(&ws));
+    lx.single(|lx| {
+        let step = [1isize, -1, 2][(n + c.fill as usize) % 3];
+        let hx = Host1::new(&xs, step, 1, T::of(777.0));
+        let hw = Host1::new(&ws, -step, 1, T::of(555.0));
+        let (vx, vw) = (hx.view(), hw.view());
+        let mut obs = Vec::new();
+        // central moments 2..4, skewness, kurtosis
+        let exact: Vec<Rat> = (0..=4u32).map(|p| fl::central_moment(&xr, p)).collect();
+        let bounds: Vec<f64> = (0..=4u32).map(|p| if p < 2 { 0.0 } else { moment_bound::<T>(&xr, p) }).collect();
+        let small_scale = c.fill == 3;
+        if !small_scale {
+            match guarded(|| vx.central_moments(4)) {
+                Ok(Ok(ms)) => {
+                    for p in 2..=4usize {
+                        if p < ms.len() {
+                            let e = err_of(ms[p].to_f64_(), &exact[p]);
+                            lx.check(e <= bounds[p], "C07/central-moment-long", || format!("[{}] central_moments(4)[{}] of {} elements (fill {}) = {:?}, exact {:e}, error {:e} > bound {:e}", T::NAME, p, n, c.fill, ms[p], exact[p].to_f64(), e, bounds[p]));
+                            obs.push(ms[p].bits_());
+                        }
+                    }
+                }
+                other => lx.fail("C07/central-moments-failed", || format!("central_moments(4) of {} elements: {:?}", n, other.map(|r| r.map(|v| v.len())))),
+            }
+        }
+        let mu2 = exact[2].to_f64();
+        if mu2 > 4.0 * bounds[2] && mu2 > 0.0 && n >= 3 {
+            let (lo2, hi2) = (mu2 - bounds[2], mu2 + bounds[2]);
+            for (name, p, pow) in [("skewness", 3usize, 1.5f64), ("kurtosis", 4usize, 2.0f64)] {
+                let mu = exact[p].to_f64();
+                let (lo, hi) = (mu - bounds[p], mu + bounds[p]);
+                let cands = [lo / lo2.powf(pow), lo / hi2.powf(pow), hi / lo2.powf(pow), hi / hi2.powf(pow)];
+                let mut a = cands.iter().cloned().fold(f64::INFINITY, f64::min);
+                let mut b = cands.iter().cloned().fold(f64::NEG_INFINITY, f64::max);
+                if !(a.is_finite() && b.is_finite()) {
+                    lx.skip("skewness/kurtosis: reference interval not finite at this scale");
+                    continue;
+                }
+                let slack = 16.0 * u * a.abs().max(b.abs()) + f64::MIN_POSITIVE;
+                a -= slack;
+                b += slack;
+                match guarded(|| if p == 3 { vx.skewness() } else { vx.kurtosis() }) {
+                    Ok(Ok(g)) => {
+                        let g = g.to_f64_();
+                        lx.check(a <= g && g <= b, &format!("C07/{}-long", name), || format!("[{}] {} of {} elements (fill {}, scale {:e}) = {:e}, admissible [{:e}, {:e}]", T::NAME, name, n, c.fill, scale, g, a, b));
+                    }
+                    other => lx.fail("C07/skew-kurt-failed", || format!("{} of {} elements: {:?}", name, n, other.map(|r| r.map(|x| x.to_f64_())))),
+                }
+            }
+        }
+        // weighted variance
+        let wt = sum(wr.iter());
+        if !wt.is_zero() && !small_scale && c.fill != 4 {
+            let parts = fl::weighted_var_parts(&xr, &wr);
+            for ddof in [0.0, 1.0] {
+                let denom = &parts.w_total - &Rat::from_f64(ddof);
+                if denom.is_zero() {
+                    continue;
+                }
+                let want = &parts.s / &denom;
+                let b = var_bound::<T>(&parts, n, ddof);
+                match guarded(|| vx.weighted_var(&vw, T::of(ddof))) {
+                    Ok(Ok(g)) => {
+                        let e = err_of(g.to_f64_(), &want);
+                        lx.ratio("weighted_var_long", e / b.max(f64::MIN_POSITIVE));
+                        lx.check(e <= b, "C07/weighted-var-long", || format!("[{}] weighted_var of {} elements (fill {}, ddof {}) = {:?}, exact {:e}, error {:e} > bound {:e}", T::NAME, n, c.fill, ddof, g, want.to_f64(), e, b));
+                        obs.push(g.bits_());
+                    }
+                    other => lx.fail("C07/weighted-var-failed", || format!("weighted_var of {} elements: {:?}", n, other.map(|r| r.map(|x| x.to_f64_())))),
+                }
+            }
+            // lanes of this length in a (2, n) array
+            if n >= 2 && n <= 300 {
+                let data: Vec<T> = (0..2 * n).map(|i| T::of(((i * 31 + c.fill as usize) % 23) as f64 * 0.5 - 3.0)).collect();
+                let lay = all_layouts(2, &[1, -1])[(n + c.fill as usize) % 8].clone();
+                let hd = Host::new(&[2, n], &data, &lay, T::of(777.0));
+                match guarded(|| hd.view().weighted_var_axis(Axis(1), &vw, T::of(0.0))) {
+                    Ok(Ok(rv)) => {
+                        for (j, g) in rv.iter().enumerate() {
+                            let lane: Vec<T> = data[j * n..(j + 1) * n].to_vec();
+                            let parts = fl::weighted_var_parts(&rats(&lane), &wr);
+                            let want = &parts.s / &parts.w_total;
+                            let b = var_bound::<T>(&parts, n, 0.0);
+                            let e = err_of(g.to_f64_(), &want);
+                            lx.check(e <= b, "C07/weighted-var-axis-long", || format!("[{}] weighted_var_axis over a lane of {} elements (lane {}) = {:?}, exact {:e}, error {:e} > bound {:e}", T::NAME, n, j, g, want.to_f64(), e, b));
+                        }
+                    }
+                    other => lx.fail("C07/axis-failed", || format!("weighted_var_axis on (2,{}): {:?}", n, other.map(|r| r.map(|_| ())))),
+                }
+            }
+        }
+        hash_of(&obs)
+    });
+}
+
 fn main() {
     let mut rep = Report::new("C07");
     rep.rule = "case = (data array over the alphabet, offset, element type) with weight vectors x ddof x orders x strides inside; n-D: (shape, axis, layout, weights stride, fill, ddof); non-trivial = length >= 2".into();
@@ -321,6 +456,21 @@ fn main() {
                 run::<f64>(c, lx)
             } else {
                 run::<f32>(c, lx)
+            }
+        },
+    );
+    let smax = rep.cfg.pick(1100, 4100);
+    let scases = nsmc::patterns::sizes(40, smax).into_iter().filter(|&n| n >= 1).flat_map(|n| (0..5u8).flat_map(move |fill| (0..2u8).map(move |ty| SCase { n, fill, ty })));
+    rep.run_sub(
+        "size-sweep-and-scales",
+        &format!("every length 1..=40 and block / unrolling threshold neighbourhoods up to {} x 5 fills (scattered, 1e3 offset with an outlier first, small integers with ties, the same at scale 1e-60 (f32: 1e-8) and 1e60 (f32: 1e7)) x f64/f32: central_moments(4), skewness, kurtosis, weighted_var (zero weights at the first and every 9th position; ddof 0, 1), weighted_var_axis over lanes of that length", smax),
+        scases,
+        |c, lx| {
+            lx.nontrivial(c.n >= 2);
+            if c.ty == 0 {
+                run_sweep::<f64>(c, lx)
+            } else {
+                run_sweep::<f32>(c, lx)
             }
         },
     );
